@@ -2,6 +2,6 @@
    correspondence check: (cycles, registers, memory) must be equal to what the
    Go implementation returns. *)
 From Coq Require Import Extraction ExtrOcamlBasic ZArith List.
-From Maj Require Import Base.Outcome Base.GoTypes Isa.Spec Isa.Embed Isa.Seq Isa.Refine Mvp.Mvp12 Mvp.Mvp3 Mvp.Mvp4 Mvp.Mvp5 Mvp.Mvp60.
+From Maj Require Import Base.Outcome Base.GoTypes Isa.Spec Isa.Embed Isa.Seq Isa.Refine Mvp.Mvp12 Mvp.Mvp3 Mvp.Mvp4 Mvp.Mvp5 Mvp.Mvp60 Mvp.Mvp61.
 Extraction Language OCaml.
-Extraction "mvp_oracle.ml" mvp12_run mvp3_run mvp4_run mvp5_run mvp60_run mvp60_run_snap ord_policy perm_of instr_of lookup mk_arch.
+Extraction "mvp_oracle.ml" mvp12_run mvp3_run mvp4_run mvp5_run mvp60_run mvp60_run_snap mvp61_run mvp61_run_snap pord_policy ord_policy perm_of instr_of lookup mk_arch.
